@@ -169,15 +169,33 @@ def _field_loop(fn):
     return loops[0]
 
 
+def _is_tree_test(c):
+    t = str(txt(A.strip(c)))
+    while t.startswith("(") and t.endswith(")") and not t.startswith("matches!"):
+        t = t[1:-1]
+    return t in ("matches!(tag,Type::Tree)", "tag==Type::Tree", "Type::Tree==tag")
+
+
+def _split_tree_branch(loop):
+    """-> (statements of the Tree-field branch, statements every other field goes through): the branch is
+    `if <tag is Tree> {..; continue}` followed by the rest, or `if <tag is Tree> {..} else {rest}`"""
+    stmts = loop["body"]["stmts"]
+    for idx, s in enumerate(stmts):
+        e = A.strip(A.stmt_expr(s) or {}) if s.get("k") != "Let" else {}
+        if e.get("k") == "If" and _is_tree_test(e["cond"]):
+            then = list(e["then"]["stmts"])
+            if e.get("else") is not None and A.strip(e["else"]).get("k") == "Block":
+                return then, stmts[:idx] + list(A.strip(e["else"])["stmts"]) + stmts[idx + 1:]
+            return then, stmts[:idx] + stmts[idx + 1:]
+    return None, list(stmts)
+
+
 def _value_steps(loop, skip_tree=False):
     """the statements that turn field f into a Value, normalised"""
-    out = []
-    for s in loop["body"]["stmts"]:
-        t = txt(s)
-        if skip_tree and (t.startswith("ifmatches!(tag,Type::Tree)") or "Type::Tree" in t and t.startswith("if")):
-            continue
-        out.append(t)
-    return out
+    if skip_tree:
+        _then, rest = _split_tree_branch(loop)
+        return [txt(s) for s in rest]
+    return [txt(s) for s in loop["body"]["stmts"]]
 
 
 def r2_sibling_builders(rule, root=None):
@@ -215,12 +233,17 @@ def r2_sibling_builders(rule, root=None):
             else:
                 rule.bad("%s|%s" % (fn["name"], what[:20]), "%s: %s (not found in the per-field loop)" % (fn["name"], what), A.where(fn))
         tt = txt(fn["body"])
-        if "forkinm.keys(){if!shape.fields.iter().any(|p|(p.name==k.as_str())){returnErr(" in tt:
+        if "forkinm.keys(){if!shape.fields.iter().any(|p|(p.name==k.as_str())){returnErr(" in tt or "forkinm.keys(){ifshape.fields.iter().all(|p|(p.name!=k.as_str())){returnErr(" in tt:
             rule.ok("%s rejects unknown keys" % fn["name"])
         else:
             rule.bad("%s|unknown" % fn["name"], "%s must reject map keys that are not fields" % fn["name"], A.where(fn))
     tt = txt(b["body"])
-    if "ifmatches!(tag,Type::Tree){lett=t.take().unwrap();builder=builder.set_nth_field(i,t).unwrap();continue;}" in tt:
+    try:
+        then_, _rest = _split_tree_branch(_field_loop(b))
+    except A.AnchorLost:
+        then_ = None
+    tb = "".join(str(txt(s_)) for s_ in (then_ or []))
+    if tb in ("lett=t.take().unwrap();builder=builder.set_nth_field(i,t).unwrap();continue;", "lett=t.take().unwrap();builder=builder.set_nth_field(i,t).unwrap();"):
         rule.ok("build_transform puts the piped tree into the (single) Tree field")
     else:
         rule.bad("build_transform|tree", "build_transform must put its tree argument into the Tree field", A.where(b))
